@@ -118,6 +118,8 @@ def handleRegion (circular : Bool) (L : Int) (rec : BioRecord) (j : Json) : R Js
         ("protos_numbered", toJson (numberedAsLoaded (·.q.protoNumber) (ofType "protocluster" fs))),
         ("cands_numbered", toJson (numberedAsLoaded (·.q.candNumber) (ofType "cand_cluster" fs))),
         ("subs_numbered", toJson (numberedAsLoaded (·.q.subNumber) (ofType "subregion" fs))),
+        ("protos_ties", toJson (tiesInFileOrder (·.q.protoNumber) (ofType "protocluster" fs))),
+        ("subs_ties", toJson (tiesInFileOrder (·.q.subNumber) (ofType "subregion" fs))),
         ("refs_in_range", toJson (refsInRange fs)),
         ("cores_agree", toJson (coresAgree fs)),
         ("one_region", toJson (oneRegion L rd fs)),
